@@ -430,6 +430,11 @@ func flowYAML(f *flowDef) string {
 		if len(p.params) > 0 {
 			b.WriteString("    parameters:\n")
 			for _, kv := range p.params {
+				if strings.HasPrefix(kv[1], "@") {
+					// a structured value given as raw (flow-style) YAML: lists, maps, numbers, booleans, null
+					fmt.Fprintf(&b, "      - key: %s\n        value: %s\n", yq(kv[0]), kv[1][1:])
+					continue
+				}
 				fmt.Fprintf(&b, "      - key: %s\n        value: %s\n", yq(kv[0]), yq(kv[1]))
 			}
 		}
